@@ -138,6 +138,12 @@ def evalLine (line : String) : String :=
     | some rv =>
       if vs == "bits" then Diag.inv5Line SolveDriver.bitsIO (dbg == "dbg") root rv answers
       else Diag.inv5Line SolveDriver.rangeIO (dbg == "dbg") root rv answers
+  | ["inv6", vs, dbg, root, rv, _reg, _strat, _fault, answers] =>
+    match rv.toNat? with
+    | none => bad
+    | some rv =>
+      if vs == "bits" then Diag.inv6Line SolveDriver.bitsIO (dbg == "dbg") root rv answers
+      else Diag.inv6Line SolveDriver.rangeIO (dbg == "dbg") root rv answers
   | ["diag", vs, dbg, root, rv, _reg, _strat, _fault, answers] =>
     match rv.toNat? with
     | none => bad
